@@ -30,7 +30,7 @@ def _holds(a, env):
     return {'==': v == 0, '!=': v != 0, '<': v < 0, '<=': v <= 0}[a.op]
 
 
-def instantiate(eng, seed=0, n=4, lo=-3, hi=3):
+def instantiate(eng, seed=0, n=4, lo=-3, hi=3, pin_zero=True):
     """list of up to n environments {var index -> Fraction/int} for all input variables"""
     rng = random.Random(seed)
     imodel = eng.int_model()
@@ -44,9 +44,21 @@ def instantiate(eng, seed=0, n=4, lo=-3, hi=3):
     for a in in_atoms:
         constrained |= {v for v in a.vars() if VKIND[v] == 'real'}
     envs = []
+    zero_forced = set()
+    if pin_zero and len(rvars) <= 64:
+        from . import prover
+        try:
+            eng.promote_zeros()
+            zero_forced = set(prover.forced_zero_inputs(eng, rvars))
+        except Exception:
+            zero_forced = set()
     for k in range(n * 3):
         env = dict(imodel)
+        for v in zero_forced:
+            env[v] = 0
         for v in rvars:
+            if v in zero_forced:
+                continue
             if v not in constrained:
                 num = rng.randint(1, 9) * rng.choice((-1, 1))
                 env[v] = Fraction(num, rng.choice((1, 2, 3, 4)))
@@ -58,6 +70,9 @@ def instantiate(eng, seed=0, n=4, lo=-3, hi=3):
             for v in env:
                 if v not in zv:
                     zv[v] = z3.RealVal(str(env[v]))
+            for v in zero_forced:
+                if v in constrained:
+                    s.add(zv[v] == 0)
             for a in in_atoms:
                 e = _z3poly(a.p, zv)
                 s.add({'==': e == 0, '!=': e != 0, '<': e < 0, '<=': e <= 0}[a.op])
